@@ -68,6 +68,12 @@ def cases():
     add("ctor:unknown-position-word", "unknown position word", lambda e: e.mk(coords_edit=("X", "middle", "x_l")))
     add("ctor:non-numeric-fill-value", "non-numeric fill value", lambda e: e.mk(fill_value="a"))
     add("ctor:non-numeric-fill-value-in-mapping", "non-numeric fill value", lambda e: e.mk(fill_value={"Y": "zero"}))
+    # text that LOOKS like a number is still not a number
+    add("ctor:numeric-looking-string-fill-value", "non-numeric fill value", lambda e: e.mk(fill_value="1"))
+    add("ctor:numeric-looking-string-fill-value-in-mapping", "non-numeric fill value", lambda e: e.mk(fill_value={"X": "2.5"}))
+    add("ctor:nan-string-fill-value", "non-numeric fill value", lambda e: e.mk(fill_value=" nan "))
+    add("ctor:bytes-fill-value", "non-numeric fill value", lambda e: e.mk(fill_value=b"7"))
+    add("ctor:list-fill-value", "non-numeric fill value", lambda e: e.mk(fill_value={"Y": [1.0]}))
     add("ctor:dimension-not-in-dataset", "dimension missing", lambda e: e.mk(coords_edit=("Y", "left", "nosuchdim")))
     add("ctor:default-shift-to-same-position", "shift the axis cannot make", lambda e: e.mk(default_shifts={"X": {"center": "center"}}))
     # grid ufuncs
